@@ -13,7 +13,8 @@ META = dict(
          "{1/16..1} and decimal ticks {0.05, 0.1, 0.2, 0.3}, start stamps 0 and 3T; plus FloScript framers built by the real Builder "
          "whose period is changed with `bid run .. at p`. Every tick's ordered run list must equal the reference scheduler's.",
     note="Decimal ticks: due times are the float sums the statement's recurrence gives on the observed stamps (drift against the "
-         "decimal ideal is counted, not raised). Run lengths are bounded by the horizon (12 ticks quick, 24 thorough).",
+         "decimal ideal is counted, not raised); a tasker whose period never exceeds the tick must run at every tick on every "
+         "grid. Run lengths are bounded by the horizon (12 ticks quick, 20 for decimal ticks; 24 thorough).",
 )
 import itertools
 from fractions import Fraction as F
@@ -221,8 +222,16 @@ def diagnose(real, ref, dead):
     return "not-run-when-due"
 
 
+DECIMAL_MIN_HORIZON = 20     # 0.1 + 0.1 + ... and k * 0.1 first differ at k = 15; 0.3 at k = 6
+
+
+def horizon_for(T, H):
+    return max(H, DECIMAL_MIN_HORIZON) if T in DECIMAL else H
+
+
 def check_cfg(cfg, H, p):
     T, t0m, slots, mults, events = cfg
+    H = horizon_for(T, H)
     names = "abc"[:len(slots)]
     order = run_order(slots)
     res, log = real_run(cfg, H)
@@ -290,6 +299,22 @@ def check_cfg(cfg, H, p):
                         dict(config=cs, tick=j, stamps=stamps, observed=[[n for n, c in t] for t in ticks], expected=ref,
                              how="House with ScriptTaskers a,b,c (period = mult*tick, placement as named) under Skedder(period=tick, stamp=t0)"))
             return
+    # "... (so every tick when p does not exceed the tick period)": binding on every grid, decimal included.
+    # Sound for the unchanged arithmetic: stamp and due time start equal and advance by float additions of
+    # T and p <= T; rounding is monotone, so due <= stamp holds at every tick, with equality for p == T.
+    for n, m in zip(names, mults):
+        if m > 1 or any(kind == "bid-period" and tg == n and new > 1 for a, j, kind, tg, new in events):
+            continue
+        for j in range(len(ticks)):
+            if j < len(dead_before) and n in dead_before[j]:
+                break
+            if n not in [x for x, c in ticks[j]]:
+                p.violation("schedule|period-not-exceeding-tick-skipped-a-tick", cs,
+                            "%s has period %r <= tick %r and is still scheduled, but did not run in tick %d (time %r); it ran in ticks %r"
+                            % (n, float(m * T), float(T), j, stamps[j], [i for i, t in enumerate(ticks) if n in [x for x, c in t]]),
+                            dict(config=cs, tick=j, stamps=stamps, observed=[[x for x, c in t] for t in ticks],
+                                 how="House with ScriptTaskers (period = mult*tick) under Skedder(period=tick, stamp=t0)"))
+                return
     if exact:
         # arithmetic ideal: the same recurrence in exact rationals over ideal stamps
         iperiods = {n: m * T for n, m in zip(names, mults)}
@@ -367,6 +392,7 @@ def check_flo(prog, H, p):
     b = real.build_text(text)
     if not b.ok:
         raise core.BrokenCheck("C02 FloScript family does not build: %r\n%s" % (b, text))
+    H = horizon_for(T, H)
     res = real.run(b.houses, tick=float(T), horizon=H)
     p.traces += 1
     p.evaluations += 1
@@ -405,6 +431,14 @@ def check_flo(prog, H, p):
                         "tick %d (time %r): ran %r, the statement's scheduler runs %r" % (k, stamps[k], ticks[k], exp),
                         dict(program=text, tick_period=float(T), stamps=stamps, observed=ticks, expected=ref))
             return
+    for n, ok in (("ctl", True), ("tgt", p1 <= 1 and p2 <= 1)):
+        if ok:
+            for k in range(len(stamps)):
+                if n not in ticks[k]:
+                    p.violation("schedule-floscript|period-not-exceeding-tick-skipped-a-tick", cs,
+                                "%s has a period <= tick and is scheduled, but did not run in tick %d (time %r)" % (n, k, stamps[k]),
+                                dict(program=text, tick_period=float(T), stamps=stamps, observed=ticks))
+                    return
     for st in states:
         p.nontrivial("flo" + repr(tuple((n, round((d) / float(T), 6), round(q / float(T), 6)) for n, d, q in st)))
     p.outcome("floscript bid-at-period: equals reference at every tick")
@@ -438,7 +472,7 @@ def run():
     fsize = -(-len(progs) // max(1, core.NPROC))
     jobs += [("flo", progs[i:i + fsize], H) for i in range(0, len(progs), fsize)]
     ck.merge(core.pmap(work, jobs))
-    ck.coverage_extra = dict(grid_configurations=len(cfgs), floscript_programs=len(progs), horizon_ticks=H,
+    ck.coverage_extra = dict(grid_configurations=len(cfgs), floscript_programs=len(progs), horizon_ticks=H, horizon_ticks_decimal=max(H, DECIMAL_MIN_HORIZON),
                              tick_periods=[str(t) for t in DYADIC + DECIMAL],
                              period_multiples_of_tick=[str(m) for m in MULTS])
     ck.assumptions = [
@@ -446,6 +480,9 @@ def run():
         "IEEE doubles like every time in ioflo; on the dyadic grid this is exact and is additionally compared with rational arithmetic "
         "on ideal stamps t0 + j*tick; on the decimal grid the recurrence is bound on the observed stamps and the difference to the "
         "decimal ideal (one tick late/early at exact multiples, from float accumulation of stamp += period) is counted in notes, not raised",
+        "`every tick when p does not exceed the tick period` is binding on all grids (decimal too): a tasker whose period is <= the "
+        "tick throughout the run must be run in every tick while it is scheduled; decimal ticks run for at least 20 ticks because "
+        "accumulated and multiplied multiples of 0.1 first differ at the 15th",
         "`a period changed by a bid` = assignment of tasker.period (what wanting.Want*.action does); also exercised through real "
         "FloScript `bid run tgt at p`",
         "`run` = the tasker's generator is sent a control in the skedder's pass; the final abort sweep is C03's subject and is excluded",
@@ -454,7 +491,7 @@ def run():
     return ck.finish(
         rule="every configuration of the stated grid (1-3 taskers) run for %d ticks; non-trivial = distinct scheduler state "
              "(per tasker: due time relative to now and period, in ticks; set of scheduled taskers); states = ticks compared, "
-             "transitions = tasker runs compared" % H,
+             "transitions = tasker runs compared (decimal ticks: %d ticks)" % (H, max(H, DECIMAL_MIN_HORIZON)),
         exhaustive=True)
 
 
